@@ -1,6 +1,6 @@
 (* C02 — property theorems (statements in full; proofs in Proofs*.v). *)
 From Coq Require Import List NArith Bool.
-From LTV.C02 Require Import Model ProofsA ProofsB ProofsC Proofs ProofsD.
+From LTV.C02 Require Import Model ProofsA ProofsB ProofsC Proofs ProofsD ProofsE.
 Import ListNotations.
 Local Open Scope N_scope.
 
@@ -171,3 +171,12 @@ Theorem order_independent :
     raw (s_store sAB) i o = raw (s_store sBA) i o.
 Proof. exact ProofsD.order_independent. Qed.
 Print Assumptions order_independent.
+
+(* marking a valid, not yet completed piece never raises, in any reachable state *)
+Theorem mark_completed_total : forall cs lay ops idx, cfg_ok cs lay ->
+  let c := mk_cfg cs lay in
+  let s := fst (run c (init_state c) ops) in
+  idx < size_chunks c -> nth (N.to_nat idx) (s_done s) false = false ->
+  snd (step c s (OpMark idx)) = OutMark true.
+Proof. exact ProofsE.mark_completed_total. Qed.
+Print Assumptions mark_completed_total.
